@@ -71,8 +71,19 @@ def _deaug(x):
     return x
 
 
+_NEG = {ast.Eq: ast.NotEq, ast.NotEq: ast.Eq, ast.Lt: ast.GtE, ast.GtE: ast.Lt, ast.Gt: ast.LtE, ast.LtE: ast.Gt, ast.In: ast.NotIn, ast.NotIn: ast.In, ast.Is: ast.IsNot, ast.IsNot: ast.Is}
+
+
+def _denot(x):
+    """not (a op b)  is matched as  a negated-op b  (patterns describe integer / membership tests)"""
+    if isinstance(x, ast.UnaryOp) and isinstance(x.op, ast.Not) and isinstance(x.operand, ast.Compare) and len(x.operand.ops) == 1 and type(x.operand.ops[0]) in _NEG:
+        c = x.operand
+        return ast.Compare(c.left, [_NEG[type(c.ops[0])]()], c.comparators)
+    return x
+
+
 def _m(p, n, b):
-    p, n = _deaug(p), _deaug(n)
+    p, n = _denot(_deaug(p)), _denot(_deaug(n))
     if isinstance(p, ast.Compare) and isinstance(n, ast.Compare) and len(p.ops) == 1 and len(n.ops) == 1 and type(n.ops[0]) in _FLIP:
         # a < b  also matches  b > a
         b1 = dict(b)
